@@ -209,6 +209,15 @@ Theorem C07x_prefmix_uncorrelated_discrete : forall (Pk : pkdict) rho p N,
   pmd_rel Pk rho p (pmd_loop N rho p Pk (uncorrelated Pk) n)
           (EBCM_discrete_loop 0 N (fun x => (1 - rho) * pk_psi Pk x) p 0 (1 - rho) (fun x => (1 - rho) * pk_psiP Pk x) n).
 Proof. exact prefmix_uncorrelated_discrete. Qed.
+(* the same with the relation written out: after n passes R, S, I and every theta_k of EBCM_pref_mix_discrete equal EBCM_discrete's
+   (EBCM_discrete_loop returns (theta, R, S, I)) *)
+Theorem C07x_prefmix_discrete_outputs : forall (Pk : pkdict) rho p N,
+  ~ p == 0 -> ~ 1 - rho == 0 -> ~ pk_mean Pk == 0 -> dsum Pk (fun _ q => q) == 1 -> forall n,
+  let st := pmd_loop N rho p Pk (uncorrelated Pk) n in
+  let e := EBCM_discrete_loop 0 N (fun x => (1 - rho) * pk_psi Pk x) p 0 (1 - rho) (fun x => (1 - rho) * pk_psiP Pk x) n in
+  pd_R st == snd (fst (fst e)) /\ pd_S st == snd (fst e) /\ pd_I st == snd e /\
+  forall k, In k (map fst Pk) -> plookup k (pd_theta st) == fst (fst (fst e)).
+Proof. exact prefmix_discrete_outputs. Qed.
 (* psi, psi' of a dict are a polynomial and its formal derivative *)
 Theorem C07x_dict_pgf_is_polynomial : forall d x, NoDup (map fst d) ->
   pk_psi d x == peval (pk_coeffs d) x /\ (~ x == 0 -> pk_psiP d x == D (pk_coeffs d) x).
@@ -322,6 +331,7 @@ Print Assumptions C07x_prefmix_embedding.
 Print Assumptions C07x_prefmix_initial_point_and_outputs.
 Print Assumptions C07x_effective_degree_from_graph.
 Print Assumptions C07x_prefmix_uncorrelated_discrete.
+Print Assumptions C07x_prefmix_discrete_outputs.
 Print Assumptions C07x_dict_pgf_is_polynomial.
 Print Assumptions C07x_lump_SIR_heterogeneous_meanfield_regular.
 Print Assumptions C07x_nonvacuous_lump_SIR_hmf.
